@@ -1,6 +1,7 @@
 import Upf.Model.AgentUp4
 import Upf.Proofs.Up4Meters
 import Upf.Proofs.Up4Start
+import Upf.Proofs.Up4Refs
 /-!
 # C04 — UP4 tables are the image of the live sessions' rules
 
@@ -104,6 +105,49 @@ theorem known_peer_is_shared (cfg : Cfg4) (c : Ctx) (f : Far) (pr : Shared) (e :
   refine ⟨by simp, ?_⟩
   simp only [write_peers]
   rw [mapGet_mapPut]; simp
+
+/-! ### tunnel peers: "present iff at least one live rule uses it", the bookkeeping half
+
+A FAR *uses* a peer when it names a tunnel towards the access network (`namesTunnel`), whatever its action: the plug-in
+builds and deletes a rule's entries only while the peer of its FAR is known (`entries_need_the_peer`). -/
+
+/-- an accepted establishment leaves every tunnel-naming FAR it carried with a reference on its peer -/
+theorem created_far_holds_its_peer (cfg : Cfg4) (c : Ctx) (all updated : Rules) (ok : (sendCreate cfg c all updated).2.2 = true)
+    (f : Far) (hf : f ∈ updated.fars) (hn : namesTunnel f) : HasRef cfg (sendCreate cfg c all updated).1.st f :=
+  sendCreate_refs cfg c all updated ok f hf hn
+
+/-- so does an accepted modification for the FARs it created or updated -/
+theorem updated_far_holds_its_peer (cfg : Cfg4) (c : Ctx) (all updated : Rules) (ok : (sendUpdate cfg c all updated).2 = true)
+    (f : Far) (hf : f ∈ updated.fars) (hn : namesTunnel f) : HasRef cfg (sendUpdate cfg c all updated).1.st f :=
+  sendUpdate_refs cfg c all updated ok f hf hn
+
+/-- releasing the peers of removed FARs never takes the reference of another FAR (another session, or another FAR ID of the
+same session) — in particular a peer some other FAR still names is not deleted under it -/
+theorem removal_keeps_other_references (cfg : Cfg4) (g : Far) (fs : List Far) (c : Ctx)
+    (hd : ∀ f ∈ fs, (g.fseID, g.farID) ≠ (f.fseID, f.farID)) (h : HasRef cfg c.st g) :
+    HasRef cfg (fs.foldl (removePeer cfg) c).st g :=
+  removePeers_keep_others cfg g fs c hd h
+
+/-- requests of other sessions only add references -/
+theorem later_requests_keep_references (cfg : Cfg4) (g : Far) (fs : List Far) (c : Ctx) (h : HasRef cfg c.st g) :
+    HasRef cfg (updatePeers cfg c fs).1.st g :=
+  updatePeers_mono cfg g fs c h
+
+/-- the entries of a PDR whose FAR names a tunnel are built (for INSERT, MODIFY and DELETE alike) only while the FAR's peer is known:
+the condition under which the peer is required is the one under which the reference is taken -/
+theorem entries_need_the_peer (cfg : Cfg4) (fars : List Far) (qers : List Qer) (op : Op) (st : St) (p : Pdr) (es : List Entry) (far : Far)
+    (hf : fars.find? (·.farID = p.farID) = some far) (ht : namesTunnel far)
+    (h : (prepare cfg fars qers op st p).2 = some es) : (mapGet st.peers (tpOf cfg far)).isSome :=
+  prepare_needs_peer cfg fars qers op st p es far hf ht h
+
+def exCfg : Cfg4 := { accessIP := 0xC6120101, accessLen := 32, uePool := (0x0A3C0000, 16), sliceID := 0, defaultTC := 3, qfiToTC := [] }
+def exFar : Far := { farID := 2, fseID := 77, applyAction := 0x0C, dstIntf := 0, tunnelTEID := 80100, tunnelIP4Dst := 0xC6120109, tunnelPort := 2152 }
+def exCtx : Ctx := { st := { peerPool := [2, 3] } }
+
+/-- the premises are satisfiable: a buffering FAR (BUFF|NOCP) that names a gNB takes a peer ID and holds the reference -/
+example : (exFar.dstIntf = 0 ∧ exFar.tunnelTEID ≠ 0) ∧ (updatePeers exCfg exCtx [exFar]).2 = true ∧
+    (mapGet (updatePeers exCfg exCtx [exFar]).1.st.peers (tpOf exCfg exFar)).map (·.usedBy) = some [(77, 2)] := by
+  decide
 
 /-- table entries left behind by a previous, killed incarnation are cleared at start-up: whatever the switch held, after a
 start-up whose Writes are served every entry of the seven tables the agent owns is one of the two interfaces entries
